@@ -89,7 +89,8 @@ RoundTripFails(r) ==
     LET tiles == r.tiles  fmt == r.fmt IN
     \* the independent decoder recovers exactly the source mapping
     Fails("decode", r.decoded.skip = 1 \/ (r.decoded.ok = 1 /\ r.decoded.tiles = tiles)) \cup
-    Fails("decode_params", r.decoded.skip = 1 \/ r.decoded.ok = 0 \/
+    \* ("wherever the target format can express them": a format that cannot is free in what it reads back)
+    Fails("decode_params", r.decoded.skip = 1 \/ r.decoded.ok = 0 \/ ~CanExpress(fmt, r.tf, r.tc) \/
             (r.decoded.tc = r.tc /\ r.decoded.tf = Declared(fmt, r.tf))) \cup
     Fails("layout", r.decoded.skip = 1 \/ r.decoded.ok = 0 \/
             CASE fmt = "versatiles" -> VersaTilesValid(r.decoded.layout)
@@ -99,7 +100,7 @@ RoundTripFails(r) ==
     Fails("layout_clustered", r.decoded.skip = 1 \/ r.decoded.ok = 0 \/ fmt # "pmtiles" \/ PMTilesClusteredTruthful(r.decoded.layout)) \cup
     \* the real reader opens it and declares the same parameters
     Fails("open", r.opened.ok = 1) \cup
-    Fails("params", r.opened.ok = 0 \/ (r.opened.tc = r.tc /\ r.opened.tf = Declared(fmt, r.tf))) \cup
+    Fails("params", r.opened.ok = 0 \/ ~CanExpress(fmt, r.tf, r.tc) \/ (r.opened.tc = r.tc /\ r.opened.tf = Declared(fmt, r.tf))) \cup
     \* ... returns exactly the source payload for every source coordinate
     Fails("lookup", r.opened.ok = 0 \/ r.lookups = tiles) \cup
     \* ... a conversion-style read-back (streams over the ADVERTISED coverage, level by level) yields exactly the source
